@@ -16,14 +16,15 @@ Proof. unfold req. destruct (Req_EM_T a b); split; congruence. Qed.
 
 Section Ext.
   Variable better : R -> R -> bool.      (* `px[offset] > tmp` for max, `px[offset] < tmp` for min *)
+  Variable dflt : R.                     (* the value stored when there is no candidate (max_pool2d: lowest()) *)
 
-  Definition scan (vals : list R) : R := fold_left (fun tmp v => if better v tmp then v else tmp) vals (hd 0 vals).
+  Definition scan (vals : list R) : R := fold_left (fun tmp v => if better v tmp then v else tmp) vals (hd dflt vals).
   Definition gvals (x : list R) (g : list nat) : list R := map (fun s => nth s x 0) g.
   Definition first_eq (g : list nat) (x : list R) (m : R) : option nat := find (fun s => req (nth s x 0) m) g.
 
-  Definition ext_desc (sx sy : tshape) (dim : nat) : @opdesc R :=
-    let p := axis_red sx sy dim in
-    {| d_args := [sx]; d_rets := [sy]; d_ok := sum_ok sx sy dim; d_nop := false;
+  (* a reduction program p: output fst e scans the candidates snd e in order *)
+  Definition redx_desc (sx sy : tshape) (ok : bool) (p : red) : @opdesc R :=
+    {| d_args := [sx]; d_rets := [sy]; d_ok := ok; d_nop := false;
        d_fw := fun xs => [map (fun e : nat * list nat => scan (gvals (hd [] xs) (snd e))) p];
        d_jvp := fun xs dxs =>
          [map (fun e : nat * list nat =>
@@ -44,10 +45,11 @@ Section Ext.
     split; [apply (axis_red_sequential sx sy dim base n Rt)|apply (axis_red_in_bounds sx sy dim base n Rt)]; auto.
   Qed.
 
-  Lemma ext_LA sx sy dim : desc_LA 0 Rplus Rmult (ext_desc sx sy dim).
+  Lemma redx_LA sx sy ok p : (ok = true -> sequential p (tsize sy) /\ red_in_bounds p (tsize sx)) ->
+    desc_LA 0 Rplus Rmult (redx_desc sx sy ok p).
   Proof.
-    intros Hok xs dxs gys Hx Hdx Hgy. cbn [ext_desc d_args d_rets d_ok d_nop d_fw d_jvp d_bw] in *.
-    destruct (sum_ok_red sx sy dim Hok) as (Hseq & Hbnd). set (p := axis_red sx sy dim) in *.
+    intros Hp Hok xs dxs gys Hx Hdx Hgy. cbn [redx_desc d_args d_rets d_ok d_nop d_fw d_jvp d_bw] in *.
+    destruct (Hp Hok) as (Hseq & Hbnd).
     apply F2_one in Hx. destruct Hx as (x & -> & Hx).
     apply F2_one in Hdx. destruct Hdx as (dx & -> & Hdx). apply F2_one in Hgy. destruct Hgy as (gy & -> & Hgy).
     cbn [hd]. unfold sized in *.
@@ -118,3 +120,35 @@ Lemma rlt_asym a b : rlt a b = true -> rlt b a = false.
 Proof. unfold rlt. destruct (Rlt_dec a b), (Rlt_dec b a); try reflexivity; try discriminate. lra. Qed.
 Lemma rlt_irrefl a : rlt a a = false.
 Proof. unfold rlt. destruct (Rlt_dec a a); [lra|reflexivity]. Qed.
+
+(* Max / Min along an axis: the candidates of output i are its axis slice (never empty) *)
+Definition ext_desc (better : R -> R -> bool) (sx sy : tshape) (dim : nat) : @opdesc R :=
+  redx_desc better 0 sx sy (sum_ok sx sy dim) (axis_red sx sy dim).
+Lemma ext_LA better sx sy dim : desc_LA 0 Rplus Rmult (ext_desc better sx sy dim).
+Proof. apply redx_LA. apply sum_ok_red. Qed.
+
+(* MaxPooling2D: the candidates of output (y_y, y_x) of plane r are the window positions inside the
+   image, columns outermost (pool2d_red); an all-padding window stores numeric_limits<float>::lowest() *)
+Definition flt_lowest : R := - IZR 340282346638528859811704183484516925440.
+Definition pool_ok (sx sy : tshape) (w0 w1 p0 p1 s0 s1 : nat) : bool :=
+  let xh := tget sx 0 in let xw := tget sx 1 in let yh := tget sy 0 in let yw := tget sy 1 in
+  let Rr := (tsize sx / (xh * xw))%nat in
+  (tsize sx =? xh * xw * Rr)%nat && (0 <? xh)%nat && (0 <? xw)%nat && (tsize sy =? Rr * (yw * yh))%nat &&
+  (0 <? w0)%nat && (0 <? w1)%nat && (0 <? s0)%nat && (0 <? s1)%nat && (w0 <=? xh + 2 * p0)%nat && (w1 <=? xw + 2 * p1)%nat &&
+  (yh =? (xh + 2 * p0 - w0) / s0 + 1)%nat && (yw =? (xw + 2 * p1 - w1) / s1 + 1)%nat && (0 <? tbatch sx)%nat.
+Definition pool_desc (sx sy : tshape) (w0 w1 p0 p1 s0 s1 : nat) : @opdesc R :=
+  redx_desc rgt flt_lowest sx sy (pool_ok sx sy w0 w1 p0 p1 s0 s1) (pool2d_red sx sy w0 w1 p0 p1 s0 s1).
+
+
+Lemma pool_ok_red sx sy w0 w1 p0 p1 s0 s1 : pool_ok sx sy w0 w1 p0 p1 s0 s1 = true ->
+  sequential (pool2d_red sx sy w0 w1 p0 p1 s0 s1) (tsize sy) /\ red_in_bounds (pool2d_red sx sy w0 w1 p0 p1 s0 s1) (tsize sx).
+Proof.
+  unfold pool_ok. intro H. bsplit.
+  set (xh := tget sx 0) in *. set (xw := tget sx 1) in *. set (Rr := (tsize sx / (xh * xw))%nat) in *.
+  split.
+  - match goal with H : tsize sy = _ |- _ => rewrite H end.
+    apply (pool2d_sequential sx sy xh xw (tget sy 0) (tget sy 1) Rr w0 w1 p0 p1 s0 s1); auto.
+  - apply (pool2d_in_bounds sx sy xh xw (tget sy 0) (tget sy 1) Rr w0 w1 p0 p1 s0 s1); auto.
+Qed.
+Lemma pool_LA sx sy w0 w1 p0 p1 s0 s1 : desc_LA 0 Rplus Rmult (pool_desc sx sy w0 w1 p0 p1 s0 s1).
+Proof. apply redx_LA. apply pool_ok_red. Qed.
